@@ -327,6 +327,8 @@ pub fn join_scoped(scope: ScopeName, group: GroupName, actors: Vec<ActorCell>) {
     if actors.is_empty() {
         return;
     }
+    #[cfg(feature = "verif")]
+    crate::verif::point(crate::verif::pt::PG_JOIN_AFTER_FILTER, 0, 0);
 
     let mut stopped_relations = Vec::new();
     let (joined, listeners) = {
@@ -340,6 +342,8 @@ pub fn join_scoped(scope: ScopeName, group: GroupName, actors: Vec<ActorCell>) {
                 continue;
             }
             let relations = get_or_create_actor_relations(monitor, actor.get_id());
+            #[cfg(feature = "verif")]
+            crate::verif::point(crate::verif::pt::PG_JOIN_IN_ENTRY, crate::verif::id_u64(&actor.get_id()), 0);
             let mut relations_guard = lock_relations(&relations);
             if actor.get_status() <= ActorStatus::Draining {
                 relations_guard.memberships.insert(key.clone());
@@ -364,6 +368,8 @@ pub fn join_scoped(scope: ScopeName, group: GroupName, actors: Vec<ActorCell>) {
         (joined, group_state.listeners.clone())
     };
 
+    #[cfg(feature = "verif")]
+    crate::verif::point(crate::verif::pt::PG_JOIN_AFTER_ENTRY, 0, 0);
     for (actor, relations) in stopped_relations {
         remove_empty_actor_relations(monitor, actor, &relations);
     }
@@ -405,6 +411,8 @@ pub fn leave_scoped(scope: ScopeName, group: GroupName, actors: Vec<ActorCell>) 
         group: group.to_owned(),
     };
     let monitor = get_monitor();
+    #[cfg(feature = "verif")]
+    crate::verif::point(crate::verif::pt::PG_LEAVE_ENTER, 0, 0);
 
     let result = if let Occupied(mut entry) = monitor.map.entry(key.clone()) {
         let group_state = entry.get_mut();
@@ -451,6 +459,8 @@ pub(crate) fn leave_all(actor: ActorId) {
     let mut relations_guard = lock_relations(&relations);
     let memberships = std::mem::take(&mut relations_guard.memberships);
     drop(relations_guard);
+    #[cfg(feature = "verif")]
+    crate::verif::point(crate::verif::pt::PG_LEAVE_ALL_AFTER_TAKE, crate::verif::id_u64(&actor), 0);
     let mut removal_events = Vec::with_capacity(memberships.len());
 
     for key in memberships {
@@ -646,6 +656,8 @@ pub fn monitor(group: GroupName, actor: ActorCell) {
 
     drop(relations_guard);
     drop(entry);
+    #[cfg(feature = "verif")]
+    crate::verif::point(crate::verif::pt::PG_MONITOR_AFTER_REGISTER, crate::verif::id_u64(&actor_id), 0);
     if actor.get_status() >= ActorStatus::Stopping {
         if let Occupied(entry) = monitor.map.entry(key) {
             if entry.get().members.is_empty() && entry.get().listeners.is_empty() {
@@ -681,6 +693,8 @@ pub fn monitor_scope(scope: ScopeName, actor: ActorCell) {
 
     drop(relations_guard);
     drop(entry);
+    #[cfg(feature = "verif")]
+    crate::verif::point(crate::verif::pt::PG_MONITOR_AFTER_REGISTER, crate::verif::id_u64(&actor_id), 0);
     if actor.get_status() >= ActorStatus::Stopping {
         if let Occupied(entry) = monitor.world_listeners.entry(key) {
             if entry.get().is_empty() {
@@ -759,6 +773,8 @@ pub(crate) fn demonitor_all(actor: ActorId) {
     let group_monitors = std::mem::take(&mut relations_guard.group_monitors);
     let world_monitors = std::mem::take(&mut relations_guard.world_monitors);
     drop(relations_guard);
+    #[cfg(feature = "verif")]
+    crate::verif::point(crate::verif::pt::PG_DEMONITOR_ALL_AFTER_TAKE, crate::verif::id_u64(&actor), 0);
 
     for key in group_monitors {
         if let Occupied(mut entry) = monitor.map.entry(key) {
@@ -781,5 +797,83 @@ pub(crate) fn demonitor_all(actor: ActorId) {
                 entry.remove();
             }
         }
+    }
+}
+
+/// A copy of the four internal indexes, for cross-index agreement and leak checks.
+/// Each shard is read under its own lock; meaningful at quiescent points only.
+#[cfg(feature = "verif")]
+#[derive(Debug, Default, Clone)]
+pub struct VerifPgSnapshot {
+    /// (scope, group, member ids, listener ids)
+    pub map: Vec<(ScopeName, GroupName, Vec<ActorId>, Vec<ActorId>)>,
+    /// (scope, groups)
+    pub index: Vec<(ScopeName, Vec<GroupName>)>,
+    /// (scope, group-key, listener ids)
+    pub world_listeners: Vec<(ScopeName, GroupName, Vec<ActorId>)>,
+    /// (actor, memberships, group monitors, world monitors) as (scope, group) pairs
+    #[allow(clippy::type_complexity)]
+    pub relations: Vec<(
+        ActorId,
+        Vec<(ScopeName, GroupName)>,
+        Vec<(ScopeName, GroupName)>,
+        Vec<(ScopeName, GroupName)>,
+    )>,
+}
+
+/// Take a [VerifPgSnapshot]
+#[cfg(feature = "verif")]
+pub fn verif_snapshot() -> VerifPgSnapshot {
+    let monitor = get_monitor();
+    let pairs = |s: &HashSet<ScopeGroupKey>| {
+        s.iter()
+            .map(|k| (k.scope.clone(), k.group.clone()))
+            .collect::<Vec<_>>()
+    };
+    VerifPgSnapshot {
+        map: monitor
+            .map
+            .iter()
+            .map(|e| {
+                (
+                    e.key().scope.clone(),
+                    e.key().group.clone(),
+                    e.value().members.keys().copied().collect(),
+                    e.value().listeners.iter().map(|l| l.get_id()).collect(),
+                )
+            })
+            .collect(),
+        index: monitor
+            .index
+            .iter()
+            .map(|e| (e.key().clone(), e.value().iter().cloned().collect()))
+            .collect(),
+        world_listeners: monitor
+            .world_listeners
+            .iter()
+            .map(|e| {
+                (
+                    e.key().scope.clone(),
+                    e.key().group.clone(),
+                    e.value().iter().map(|l| l.get_id()).collect(),
+                )
+            })
+            .collect(),
+        relations: monitor
+            .actor_relations
+            .iter()
+            .map(|e| (*e.key(), e.value().clone()))
+            .collect::<Vec<_>>()
+            .into_iter()
+            .map(|(id, relations)| {
+                let g = lock_relations(&relations);
+                (
+                    id,
+                    pairs(&g.memberships),
+                    pairs(&g.group_monitors),
+                    pairs(&g.world_monitors),
+                )
+            })
+            .collect(),
     }
 }
